@@ -27,7 +27,7 @@ ASSUMPTIONS = ['failpoints sit at python-level step boundaries; a crash inside o
                'a hung pool after a dead worker is killed by the watchdog and judged on the files it left (no liveness claim)',
                'the clean run must report success, otherwise the case is inconclusive']
 MIN_NONTRIVIAL = {'quick': 50, 'thorough': 1500}
-REQUIRED_MONITORS = ['trace:steps_recorded', 'fault:fired', 'fault:raise', 'fault:exit', 'fault:kill', 'fault:persistent', 'history:stale_success_of_earlier_run', 'oracle:status_read', 'oracle:success_verified',
+REQUIRED_MONITORS = ['trace:steps_recorded', 'fault:fired', 'fault:raise', 'fault:exit', 'fault:kill', 'fault:persistent', 'history:stale_success_of_earlier_run', 'fault:class:OSError', 'fault:class:RuntimeError', 'oracle:status_read', 'oracle:success_verified',
                      'clean:success', 'pipeline:single', 'pipeline:multi', 'fault:in_worker']
 SHARD_TIMEOUT = {'quick': 1200, 'thorough': 14400}
 SUCCESS = 'Reached end. All ok!'
@@ -193,6 +193,10 @@ def run_case(case):
         mine = mine_persistent + mine
         # the set-up phase of a re-run over the output of an earlier successful run (old BAM and index are removed there): always exercised
         forced_stale = set()
+        if case['part'] == 1 and multi:
+            worker_writes = [p_ for p_ in points if p_[0] != 'main' and p_[1] == 'molecule.write_pysam' and p_[3] == 'before']
+            for p_ in worker_writes[:2]:
+                mine.insert(0, (p_, 'raise:OSError'))
         if case['part'] == 0:
             for spec_ in ((('main', 'os.remove', 0, 'after'), 'raise'), (('main', 'os.remove', 0, 'after'), 'kill'), (('main', 'os.remove', 1, 'after'), 'exit'),
                           (('main', 'write_status', 0, 'before'), 'kill')):
@@ -206,7 +210,10 @@ def run_case(case):
                     continue
                 hung_budget -= 1
             tag = f'f_{len(os.listdir(dd))}'
-            fault = {'proc': proc, 'step': stepname, 'occ': occ, 'when': when, 'kind': kind}
+            fault = {'proc': proc, 'step': stepname, 'occ': occ, 'when': when, 'kind': kind.split(':')[0]}
+            if ':' in kind:
+                fault['exc'] = kind.split(':')[1]
+                kind = kind.split(':')[0]
             stale = rr.random() < 0.4 or ((proc, stepname, occ, when), kind) in forced_stale
             if stale:
                 acc.count('history:stale_success_of_earlier_run')
@@ -214,6 +221,9 @@ def run_case(case):
             out, status, rc, hung, trace = one(tag, fault, stale_from=os.path.join(dd, 'clean') if stale else None)
             acc.evals += 1
             fired = any('fired' in e for e in trace)
+            for e in trace:
+                if 'exception_class' in e:
+                    acc.count('fault:class:' + e['exception_class'])
             if fired:
                 acc.count('fault:fired')
                 acc.count('fault:' + kind.replace('raise_persistent', 'persistent'))
